@@ -227,8 +227,25 @@ def deleteNthRs (fresh : Nat) : List RObj → Nat → Nat → Nat → List RObj 
       match deleteNthRs fresh rest n (i + 1) (count + num) with
       | (rs', c) => (o :: rs', c)
 
-/-- `hostlist_delete_nth` -/
-def deleteNthE (cfg : Cfg) (e : EL) (n : Nat) : EL :=
+/-- `hostlist_host_deleted(hl, idx, j, split)` on one iterator (F16-DELETE-UNDER-ITERATOR / F16-MULTI
+    repaired; as found nothing of the kind happens): host number `j` of record `idx` went away and,
+    if `split`, the hosts behind it now form record `idx + 1` -/
+def delOne (cfg : Cfg) (e : EL) (idx j : Int) (split : Bool) (it : ItSt) : ItSt :=
+  if cfg.fixIterDelete && it.idx = idx && it.depth ≥ j then
+    (if split && it.depth > j then ⟨it.idx + 1, it.depth - (j + 1), e.hrAt (it.idx + 1)⟩
+     else { it with depth := it.depth - 1 })
+  else it
+
+def delIts (cfg : Cfg) (e : EL) (idx j : Int) (split : Bool) : EL :=
+  { e with its := e.its.map fun (k, it) => (k, delOne cfg e idx j split it) }
+
+/-- the record that holds position n, and n's offset in it (`i`, `n - count` of `hostlist_delete_nth`) -/
+def locateNth : List RObj → Nat → Nat → Nat × Nat
+  | [], n, i => (i, n)
+  | o :: rest, n, i => if n + 1 ≤ o.r.count then (i, n) else locateNth rest (n - o.r.count) (i + 1)
+
+/-- `hostlist_delete_nth` up to the fix-up of iterators INSIDE the record that shrinks or is split -/
+def deleteNthE0 (cfg : Cfg) (e : EL) (n : Nat) : EL :=
   match deleteNthRs e.nextId e.rs n 0 0 with
   | (_, .deleted i) => let e1 := deleteRange cfg e i; { e1 with nhosts := e1.nhosts - 1 }
   | (rs', .inserted i) =>
@@ -237,6 +254,16 @@ def deleteNthE (cfg : Cfg) (e : EL) (n : Nat) : EL :=
     let e1 := insertRange e0 ((rs'[i]?.map (·.r)).getD default) i
     { e1 with nhosts := e1.nhosts - 1 }
   | (rs', .none) => { e with rs := rs', nhosts := e.nhosts - 1 }
+
+/-- `hostlist_delete_nth`.
+    FINDING F16-DELETE-UNDER-ITERATOR: as found, a record is shrunk or split without a word to the
+    iterators standing in it (they skip or revisit hosts).  Repaired: `hostlist_host_deleted`. -/
+def deleteNthE (cfg : Cfg) (e : EL) (n : Nat) : EL :=
+  let e' := deleteNthE0 cfg e n
+  match (deleteNthRs e.nextId e.rs n 0 0).2, locateNth e.rs n 0 with
+  | .deleted _, _ => e'
+  | .inserted _, (idx, j) => delIts cfg e' idx j true
+  | .none, (idx, j) => delIts cfg e' idx j false
 
 /-- `hostlist_delete_host` -/
 def deleteHostE (cfg : Cfg) (e : EL) (name : Str) : Int × EL :=
@@ -355,7 +382,8 @@ def itRemove (cfg : Cfg) (e : EL) (k : Nat) : EM EL :=
         match hostrangeDeleteHost o.r (addU64 o.r.lo it.depth.toNat) with
         | (r', some up) =>
           let e1 := insertRange (e.setObj o.id r') up (it.idx + 1).toNat
-          let e2 := e1.setIt k ⟨it.idx + 1, -1, e1.hrAt (it.idx + 1)⟩
+          -- F16-MULTI repaired: the OTHER iterators of this record follow (`hostlist_host_deleted`)
+          let e2 := (delIts cfg e1 it.idx it.depth true).setIt k ⟨it.idx + 1, -1, e1.hrAt (it.idx + 1)⟩
           .ok { e2 with nhosts := e2.nhosts - 1 }
         | (r', none) =>
           let e1 := e.setObj o.id r'
@@ -363,7 +391,7 @@ def itRemove (cfg : Cfg) (e : EL) (k : Nat) : EM EL :=
             let e2 := deleteRange cfg e1 it.idx.toNat
             .ok { e2 with nhosts := e2.nhosts - 1 }
           else
-            let e2 := e1.setIt k { it with depth := it.depth - 1 }
+            let e2 := (delIts cfg e1 it.idx it.depth false).setIt k { it with depth := it.depth - 1 }
             .ok { e2 with nhosts := e2.nhosts - 1 }
 
 /-! ### nth / count -/
